@@ -139,6 +139,18 @@ func c07Scenarios(thorough bool) []*explore.Scenario {
 				Threads: []explore.ThreadProg{w, {op(explore.Scan, ""), op(explore.Count, "")}, {op(m, "")}}, Bound: -1, QuietPop: true})
 		}
 	}
+	// F5: sync-after-every-write mode (Put/Delete end with an fsync inside their critical section) next to Compact and readers
+	for i, w := range []explore.ThreadProg{{op(explore.Put, "e"), op(explore.Put, "a")}, {op(explore.Delete, "a"), op(explore.Put, "n")}, {op(explore.Put, "b"), op(explore.Delete, "e")}} {
+		for j, rd := range [][]explore.Op{{op(explore.Get, "e"), op(explore.Get, "a")}, {op(explore.Has, "b"), op(explore.Count, "")}} {
+			if !thorough && (i+j)%2 == 1 {
+				continue
+			}
+			scs = append(scs, &explore.Scenario{Name: fmt.Sprintf("SW-Compact-%d%d", i, j), Base: "S2", Cfg: "ROLL+SW", Threads: []explore.ThreadProg{w, rd, {op(explore.Compact, "")}}, Bound: -1})
+		}
+	}
+	for i, w := range []explore.ThreadProg{{op(explore.Put, "e")}, {op(explore.Put, "a")}, {op(explore.Delete, "e")}} {
+		scs = append(scs, &explore.Scenario{Name: fmt.Sprintf("SW4-Compact-%d", i), Base: "S4", Cfg: "ROLL+SW", Threads: []explore.ThreadProg{w, {op(explore.Get, "e"), op(explore.Get, "a")}, {op(explore.Compact, "")}}, Bound: -1})
+	}
 	// F2 with Compact last (the largest interleaving spaces get whatever time is left)
 	for i, w1 := range []explore.Op{op(explore.Put, "a"), op(explore.Delete, "a"), op(explore.Put, "e"), op(explore.Delete, "e"), op(explore.Put, "c"), op(explore.Put, "n")} {
 		for j, w2 := range []explore.Op{op(explore.Put, "a"), op(explore.Delete, "b"), op(explore.Put, "e")} {
